@@ -13,6 +13,7 @@ import (
 	"os/exec"
 	"path/filepath"
 	"regexp"
+	"sort"
 	"strconv"
 	"strings"
 )
@@ -190,6 +191,42 @@ func buildOverlay(cfg *CheckCfg, scratch, patch string) (string, error) {
 		}
 	}
 
+	// access_points: bulk memory accesses (builtin copy) of the listed packages become scheduling
+	// points of registered goroutines, so that an exploration also orders the one kind of
+	// unsynchronised access that moves whole buffers (aliasing / recycled buffers)
+	for _, pkg := range cfg.AccessPoints {
+		ents, err := os.ReadDir(filepath.Join(repoDir, pkg))
+		if err != nil {
+			return "", fmt.Errorf("access_points: %v", err)
+		}
+		for _, e := range ents {
+			name := e.Name()
+			if e.IsDir() || !strings.HasSuffix(name, ".go") || strings.HasSuffix(name, "_test.go") {
+				continue
+			}
+			rel := filepath.Join(pkg, name)
+			src := filepath.Join(repoDir, rel)
+			if cur, ok := replace[src]; ok {
+				src = cur
+			}
+			out, changed, err := insertAccessPoints(src, shimImportBase+"vsync")
+			if err != nil {
+				return "", fmt.Errorf("access_points %s: %v", rel, err)
+			}
+			if !changed {
+				continue
+			}
+			dst := filepath.Join(rdir, "ap", rel)
+			if err := os.MkdirAll(filepath.Dir(dst), 0o755); err != nil {
+				return "", err
+			}
+			if err := os.WriteFile(dst, out, 0o644); err != nil {
+				return "", err
+			}
+			replace[filepath.Join(repoDir, rel)] = dst
+		}
+	}
+
 	// global_reset: a generated file per listed package that can put every package-level variable
 	// back to its value at program start (so that executions of a stateless exploration stay independent
 	// even if a change introduces hidden package-level state)
@@ -306,4 +343,73 @@ func genGlobalReset(pkg string, replace map[string]string) ([]byte, error) {
 	}
 	fmt.Fprintf(&b, "\t}\n}\n\n// VerifResetGlobals puts every package-level variable back to its value at program start (shallow copies).\nfunc VerifResetGlobals() { verifGlobalsRestore() }\n")
 	return format.Source(b.Bytes())
+}
+
+// insertAccessPoints puts `verifaccess.Access("copy"); ` in front of every statement (of a block,
+// case or select clause) that contains a call of the builtin copy.  Line numbers are preserved.
+func insertAccessPoints(src, vsyncPath string) ([]byte, bool, error) {
+	buf, err := os.ReadFile(src)
+	if err != nil {
+		return nil, false, err
+	}
+	fset := token.NewFileSet()
+	f, err := parser.ParseFile(fset, src, buf, parser.ParseComments)
+	if err != nil {
+		return nil, false, err
+	}
+	hasCopy := func(n ast.Node) bool {
+		found := false
+		ast.Inspect(n, func(m ast.Node) bool {
+			if _, ok := m.(*ast.FuncLit); ok {
+				return false // statements inside are handled on their own
+			}
+			if c, ok := m.(*ast.CallExpr); ok {
+				if id, ok := c.Fun.(*ast.Ident); ok && id.Name == "copy" && id.Obj == nil {
+					found = true
+				}
+			}
+			return !found
+		})
+		return found
+	}
+	var offs []int
+	lists := func(l []ast.Stmt) {
+		for _, st := range l {
+			switch st.(type) {
+			case *ast.BlockStmt, *ast.IfStmt, *ast.ForStmt, *ast.RangeStmt, *ast.SwitchStmt, *ast.TypeSwitchStmt, *ast.SelectStmt, *ast.LabeledStmt:
+				continue // compound: their inner statements are visited
+			}
+			if hasCopy(st) {
+				offs = append(offs, fset.Position(st.Pos()).Offset)
+			}
+		}
+	}
+	ast.Inspect(f, func(n ast.Node) bool {
+		switch b := n.(type) {
+		case *ast.BlockStmt:
+			lists(b.List)
+		case *ast.CaseClause:
+			lists(b.Body)
+		case *ast.CommClause:
+			lists(b.Body)
+		}
+		return true
+	})
+	if len(offs) == 0 {
+		return buf, false, nil
+	}
+	sort.Ints(offs)
+	var out []byte
+	last := 0
+	pkgEnd := fset.Position(f.Name.End()).Offset
+	out = append(out, buf[:pkgEnd]...)
+	out = append(out, []byte("; import verifaccess "+strconv.Quote(vsyncPath))...)
+	last = pkgEnd
+	for _, o := range offs {
+		out = append(out, buf[last:o]...)
+		out = append(out, []byte(`verifaccess.Access("copy"); `)...)
+		last = o
+	}
+	out = append(out, buf[last:]...)
+	return out, true, nil
 }
